@@ -9,6 +9,7 @@ import Fbr.Lemmas.OvlSim
 import Fbr.Lemmas.OvlLocal
 import Fbr.Lemmas.OvlMut
 import Fbr.Lemmas.OvlMutA
+import Fbr.Lemmas.OvlEval
 
 namespace Fbr.Ovl
 
@@ -31,10 +32,6 @@ theorem not_below_parent (n : Name) (pp : Path) : (n :: pp).isSuffixOf pp = fals
     omega
 
 theorem below_self (q : Path) : q.isSuffixOf q = true := List.isSuffixOf_iff_suffix.2 (List.suffix_refl q)
-
-/-- the forest after `insert_child(pp, n, m')` -/
-def insertedMem (mem : Mem) (n : Name) (pp : Path) (pm m' : MNode) : Mem :=
-  ((removeSubtree mem (n :: pp)).set (n :: pp) (some m')).set pp (some { pm with kids := addNames pm.kids [n] })
 
 theorem insertedMem_apply (mem : Mem) (n : Name) (pp : Path) (pm m' : MNode) (p : Path) :
     insertedMem mem n pp pm m' p =
@@ -132,7 +129,7 @@ theorem consistent_insertChild {s : St} (hc : Consistent s) {L : Layer} (hup : s
     · -- the child is the parent node `pp` (so pp = n' :: p')
       rcases hget _ _ hpm' with ⟨g1, _⟩ | ⟨g1, _⟩ | ⟨g1, g2, g3, g4⟩
       · exact absurd (h1.trans g1.symm) (cons_ne_self n' p')
-      · rw [g1] at h1; exact absurd h1 (by intro h; have := congrArg List.length h; simp at this)
+      · rw [g1] at h1; exact absurd h1 (by intro h; have := congrArg List.length h; simp at this; omega)
       · rw [h2]
         show RealsLike pm.reals _
         rw [localExp_agree s.disk _ pm' n' (agree_setUpper hc _ X hu g4 n' g2 (by rw [h1]; exact hq_ne_pp.symm))]
@@ -174,7 +171,9 @@ theorem consistent_insertChild {s : St} (hc : Consistent s) {L : Layer} (hup : s
     rcases hget _ _ hm0 with ⟨h1, h2⟩ | ⟨_, h2⟩ | ⟨h1, h2, h3, h4⟩
     · subst h1
       rw [h2]
-      show (n' ∈ addNames pm.kids [n] → localExp _ pm n' ≠ []) ∧ (_ → n' ∈ addNames pm.kids [n])
+      show (n' ∈ addNames pm.kids [n] → localExp (s.disk.setUpper (n :: p) X) pm n' ≠ []) ∧
+        (headStat (s.disk.setUpper (n :: p) X) (localExp (s.disk.setUpper (n :: p) X) pm n') ≠ none →
+          n' ∈ addNames pm.kids [n])
       by_cases hn : n' = n
       · subst hn
         exact ⟨fun _ => H5, fun _ => mem_addNames.2 (Or.inr rfl)⟩
@@ -253,6 +252,7 @@ theorem consistent_insertChild {s : St} (hc : Consistent s) {L : Layer} (hup : s
         intro h; rw [h] at h1
         have := congrArg List.length h1
         simp at this
+        omega
       rw [if_neg g1, if_neg g2]
       have : (n :: pp).isSuffixOf p = false := by
         cases hb : (n :: pp).isSuffixOf p with
@@ -264,12 +264,12 @@ theorem consistent_insertChild {s : St} (hc : Consistent s) {L : Layer} (hup : s
     · have hp' : p = pp := by injection h1
       have hn' : n' = n := by injection h1
       subst hp' hn'
-      exact ⟨_, by rw [insertedMem_apply]; simp, mem_addNames.2 (Or.inr rfl)⟩
+      exact ⟨{ pm with kids := addNames pm.kids [n'] }, by rw [insertedMem_apply]; simp, mem_addNames.2 (Or.inr rfl)⟩
     · obtain ⟨pm2, hpm2, hn2⟩ := hl.reach n' p c h4
       by_cases g1 : p = pp
       · subst g1
         rw [hpm] at hpm2; cases hpm2
-        exact ⟨_, by rw [insertedMem_apply]; simp, mem_addNames.2 (Or.inl hn2)⟩
+        exact ⟨{ pm with kids := addNames pm.kids [n] }, by rw [insertedMem_apply]; simp, mem_addNames.2 (Or.inl hn2)⟩
       · refine ⟨pm2, ?_, hn2⟩
         rw [insertedMem_apply, if_neg g1]
         have g2 : p ≠ n :: pp := by
